@@ -35,7 +35,7 @@ func sweepUniverse() []*T17 {
 			add(&T17{K: "list", A: []*T17{a}})
 			add(&T17{K: "maybe", A: []*T17{a}})
 			add(&T17{K: "obj", F: []string{"x"}, A: []*T17{a}})
-			for _, k := range []*T17{{K: "num"}, {K: "str"}, {K: "var", N: "a1"}} {
+			for _, k := range []*T17{{K: "num"}, {K: "str"}, {K: "var", N: "a1"}, {K: "var", N: "a11"}} {
 				add(&T17{K: "map", A: []*T17{k, a}})
 			}
 			for _, b := range at {
